@@ -13,6 +13,9 @@ type RangeQuerySettings struct {
 }
 
 func (s RangeQuerySettings) validate() error {
+	if s.Max == "" {
+		return errors.New("range_query max value cannot be empty")
+	}
 	if s.Max != "" {
 		dur, err := parseDuration(s.Max)
 		if err != nil {
